@@ -780,6 +780,27 @@ func (sc scenario) driverLines(variant string, res runResult) []modelQ {
 		}
 		return modelQ{fmt.Sprintf("page %s %d %s %d", variant, c.Size, c.Tok, vis), c.Out, key, fmt.Sprintf("%s %d", where, i)}
 	}
+	// the accepted in-flight write as an operation of the model
+	writeQ := func() modelQ {
+		w := sc.Inflight
+		if w.Op != nil {
+			return modelQ{sc.opLine(*w.Op, res.inflightGen), res.inflightOp, opKey(sc.RPC, "hooked-write|"+w.Point+"|"+res.inflight, *w.Op, res.inflightOp), "the in-flight write (parked at " + w.Point + ")"}
+		}
+		var line string
+		up := 0
+		if w.Upsert {
+			up = 1
+		}
+		switch {
+		case w.Kind == "delete":
+			line = "sop delete " + hexID(w.ID) + " 0"
+		case sc.RPC == "publication.ListPublications":
+			line = fmt.Sprintf("sop updi %s %s %d n", hexID(w.ID), hexID(w.ID), up)
+		default:
+			line = fmt.Sprintf("sop updm %s %d n", hexID(w.ID), up)
+		}
+		return modelQ{line, res.inflightOp, fmt.Sprintf("%s|accepted-write|%s|%v|%s", sc.RPC, w.Kind, w.Upsert, strings.SplitN(res.inflightOp, " ", 2)[0]), "the accepted in-flight write"}
+	}
 	if variant != "waste" {
 		icpt := sc.Icpt
 		if icpt == "" {
@@ -810,46 +831,10 @@ func (sc scenario) driverLines(variant string, res runResult) []modelQ {
 			qs = append(qs, modelQ{Line: "keys " + hexList(res.base)})
 		}
 		for i, op := range sc.Ops {
-			line := "sop " + op.Kind + " " + hexID(op.ID)
-			switch op.Kind {
-			case "ensure":
-				if op.Alt {
-					// AddChildTrait(name) is Update(name, {Name: name}, WithCreateIfAbsent())
-					line = "sop updm " + hexID(op.ID) + " 1 n"
-				}
-			case "delete":
-				if op.AllowMissing {
-					line += " 1"
-				} else {
-					line += " 0"
-				}
-			case "add":
-				line += " " + hexID(res.gen[i])
-			case "update":
-				up, mk := 0, "n"
-				if op.Upsert {
-					up = 1
-				}
-				switch op.Mask {
-				case "key":
-					mk = "k"
-				case "nokey":
-					mk = "x"
-				case "empty":
-					mk = "e"
-				}
-				if sc.RPC == "publication.ListPublications" {
-					// the id is a separate argument: the message's own id travels too
-					msgID := op.MsgID
-					if msgID == "" && !op.Alt {
-						msgID = op.ID
-					}
-					line = fmt.Sprintf("sop updi %s %s %d %s", hexID(op.ID), hexID(msgID), up, mk)
-				} else {
-					line = fmt.Sprintf("sop updm %s %d %s", hexID(op.ID), up, mk)
-				}
-			}
-			qs = append(qs, modelQ{line, res.ops[i], fmt.Sprintf("%s|op|%s|%v|%v|%v|%v|%s|%v|%s|%s", sc.RPC, op.Kind, op.ID == "", op.Alt, op.MsgID != "", op.Upsert, op.Mask, op.AllowMissing, op.Via, strings.SplitN(res.ops[i], " ", 2)[0]), fmt.Sprintf("op %d", i)})
+			qs = append(qs, modelQ{sc.opLine(op, res.gen[i]), res.ops[i], opKey(sc.RPC, "op", op, res.ops[i]), fmt.Sprintf("op %d", i)})
+		}
+		if res.pre != nil && res.inflightEarly {
+			qs = append(qs, writeQ())
 		}
 		// Collection.List: the ids of the map, sorted
 		if res.pre == nil {
@@ -872,22 +857,10 @@ func (sc scenario) driverLines(variant string, res runResult) []modelQ {
 		n = len(res.coll)
 		if variant != "waste" {
 			// the write commits: the same operation on the model, then Collection.List again
-			w := sc.Inflight
-			var line string
-			up := 0
-			if w.Upsert {
-				up = 1
+			if !res.inflightEarly {
+				qs = append(qs, writeQ())
 			}
-			switch {
-			case w.Kind == "delete":
-				line = "sop delete " + hexID(w.ID) + " 0"
-			case sc.RPC == "publication.ListPublications":
-				line = fmt.Sprintf("sop updi %s %s %d n", hexID(w.ID), hexID(w.ID), up)
-			default:
-				line = fmt.Sprintf("sop updm %s %d n", hexID(w.ID), up)
-			}
-			qs = append(qs, modelQ{line, res.inflightOp, fmt.Sprintf("%s|accepted-write|%s|%v|%s", sc.RPC, w.Kind, w.Upsert, strings.SplitN(res.inflightOp, " ", 2)[0]), "the accepted in-flight write"})
-			qs = append(qs, modelQ{"listing", hexList(res.full), fmt.Sprintf("%s|listing|%d", sc.RPC, len(res.full)), "listing after the accepted write"})
+			qs = append(qs, modelQ{"listing", hexList(res.full), fmt.Sprintf("%s|listing|%d", sc.RPC, len(res.full)), "listing after the in-flight write"})
 		}
 	}
 	for p, calls := range res.passes {
@@ -896,6 +869,54 @@ func (sc scenario) driverLines(variant string, res runResult) []modelQ {
 		}
 	}
 	return qs
+}
+
+// opLine renders a store op for the Lean model (gen: the id the code reported for an add).
+func (sc scenario) opLine(op storeOp, gen string) string {
+	line := "sop " + op.Kind + " " + hexID(op.ID)
+	switch op.Kind {
+	case "ensure":
+		if op.Alt {
+			// AddChildTrait(name) is Update(name, {Name: name}, WithCreateIfAbsent())
+			line = "sop updm " + hexID(op.ID) + " 1 n"
+		}
+	case "delete":
+		if op.AllowMissing {
+			line += " 1"
+		} else {
+			line += " 0"
+		}
+	case "add":
+		line += " " + hexID(gen)
+	case "update":
+		up, mk := 0, "n"
+		if op.Upsert {
+			up = 1
+		}
+		switch op.Mask {
+		case "key":
+			mk = "k"
+		case "nokey":
+			mk = "x"
+		case "empty":
+			mk = "e"
+		}
+		if sc.RPC == "publication.ListPublications" {
+			// the id is a separate argument: the message's own id travels too
+			msgID := op.MsgID
+			if msgID == "" && !op.Alt {
+				msgID = op.ID
+			}
+			line = fmt.Sprintf("sop updi %s %s %d %s", hexID(op.ID), hexID(msgID), up, mk)
+		} else {
+			line = fmt.Sprintf("sop updm %s %d %s", hexID(op.ID), up, mk)
+		}
+	}
+	return line
+}
+
+func opKey(rpcName, what string, op storeOp, out string) string {
+	return fmt.Sprintf("%s|%s|%s|%v|%v|%v|%v|%s|%v|%s|%s", rpcName, what, op.Kind, op.ID == "", op.Alt, op.MsgID != "", op.Upsert, op.Mask, op.AllowMissing, op.Via, strings.SplitN(out, " ", 2)[0])
 }
 
 func maskShowsKey(rpcName string, mask []string) bool {
@@ -963,19 +984,21 @@ func (sc scenario) monitor(m *lib.Monitor, variant string, res runResult) {
 	}
 	if res.pre != nil {
 		// an ACCEPTED write was parked in its expected check: nothing was committed, the contents were those before it
-		if !fullOK(res.pre.full, res.pre.coll, res.pre.wantList, " (taken while an accepted write was parked in its expected check, before its commit)") {
+		if !fullOK(res.pre.full, res.pre.coll, res.pre.wantList, " (taken while an accepted write was parked before its commit)") {
 			return
 		}
 		if !sc.monitorPass(m, variant, order(res.pre.coll), -1, res.pre.calls) {
 			return
 		}
-		if res.inflight == "parked+accepted" || (!strings.HasPrefix(res.inflight, "parked") && !strings.Contains(res.inflight, "panic")) {
+		if sc.Inflight.Op != nil && res.inflightOp != "stuck" && !strings.HasPrefix(res.inflightOp, "panic:") {
+			// a store op parked at a yield point: it returned, with whatever its own outcome is
+		} else if sc.Inflight.Op == nil && (res.inflight == "parked+accepted" || (!strings.HasPrefix(res.inflight, "parked") && !strings.Contains(res.inflight, "panic"))) {
 			// accepted, or returned before it ever asked the caller (e.g. NotFound)
 		} else {
-			m.Violate(pre+"inflight-write", "a write whose expected check accepts it did not complete", sc, "accepted", res.inflight)
+			m.Violate(pre+"inflight-write", "a write that nothing refuses did not complete after it was released", sc, "accepted", res.inflight+" "+res.inflightOp)
 			return
 		}
-		if !fullOK(res.full, res.coll, res.wantList, " (taken after a write that was parked in its expected check during earlier List calls had completed: the contents are fixed again)") {
+		if !fullOK(res.full, res.coll, res.wantList, " (taken after a write that was parked before its commit during earlier List calls had completed: the contents are fixed again)") {
 			return
 		}
 	} else {
@@ -1007,9 +1030,9 @@ func (sc scenario) monitorPass(m *lib.Monitor, variant string, want []string, pa
 		case pass > 0:
 			what += fmt.Sprintf(" (pass %d over the same, unmodified model)", pass+1)
 		case pass < 0:
-			what += " (chain made while an accepted write was parked in its expected check, before its commit: the contents are those before the write)"
-		case sc.Inflight != nil && sc.Inflight.Accept:
-			what += " (chain made after a write that was parked in its expected check during earlier List calls had completed: the contents are fixed again)"
+			what += " (chain made while an accepted write was parked before its commit - in its expected check or at a yield point of the resource layer: the contents are those before the write)"
+		case sc.Inflight.accepting():
+			what += " (chain made after a write that was parked before its commit during earlier List calls had completed: the contents are fixed again)"
 		}
 		m.Violate(sig, what, input, exp, obs)
 		return false
